@@ -22,15 +22,21 @@ class Wire:
         # (that is, not included in edge.factory.registry)
         self.edge: Edge = factory.create(self.vertices[0], self.vertices[1], Line())
 
-        # grading/counts of this wire
-        self.grading = Grading(self.length)
-
         # multiple wires can be at the same spot; this list holds other
         # coincident wires
         self.coincidents: Set[Wire] = set()
 
+        # grading/counts of this wire
+        self.grading = Grading(self.length)
+
     @property
     def length(self) -> float:
+        if self.edge.kind == "line":
+            # the edge may have been given its shape on a neighbouring block only
+            for wire in self.coincidents:
+                if wire.edge.kind != "line":
+                    return wire.edge.length
+
         return self.edge.length
 
     @property
